@@ -143,7 +143,7 @@ ALLM = [('ms', 'rk'), ('ms', 'euler'), ('ss', 'rk'), ('dc', 'rk'), ('ms', 'next'
 class C04(NlpCheck):
     pid = "C04"
     uses_generated = True
-    slices = ["constraint-rows-all-methods", "offsets", "unplaceable-rejected"]
+    slices = ["constraint-rows-all-methods", "offsets", "unplaceable-rejected", "nothing-else-after-clear"]
     tags = ("user", "tpos")
     whole = True
     profiles = [
@@ -178,6 +178,50 @@ class C04(NlpCheck):
     def correspondence(self):
         NlpCheck.correspondence(self)
         self.unplaceable_slice()
+        self.cleared_slice()
+
+    def cleared_slice(self):
+        """no other constraint restricts the problem: after clear_constraints() on a transcribed OCP (followed by a query, a solve, or new
+        constraints) the NLP holds exactly the rows of the constraints declared since — those of the same problem declared without the
+        cleared ones"""
+        n = 6 if self.tier == 'quick' else 60
+        prof = {'methods': ALLM, 'grids': ['uniform', 'geometric'], 'horizon': ['num'], 'obj_kinds': ['at_tf', 'integral'], 'ncons': (1, 3),
+                'Ns': [2, 3], 'Ms': [1, 2], 'degrees': [1, 2], 'nxs': [1, 2], 'nus': [1]}
+        for it in range(n):
+            desc = G.gen_case(self.rng, prof)
+            after = ['nothing', 'set_value-free', 'new-constraint'][it % 3]
+            hist = ['transcribe', 'clear_constraints', after]
+            try:
+                bA = B.build(desc, transcribe=False)
+                ocp = bA.ocp
+                cur = copy.deepcopy(desc)
+                cur['cons'] = []
+                with B.quiet():
+                    ocp._transcribed
+                    ocp.clear_constraints()
+                    if after == 'new-constraint':
+                        s_ = G.symbols(desc)
+                        e = G.poly(self.rng, s_['x'], (1, 1), 2)
+                        ocp.subject_to(Mo.E.to_casadi(e, bA.sym_base) <= 3.0, include_last=False)
+                        cur['cons'].append({'rel': 'le', 'a': [e], 'b': [Mo.E.C(3)], 'grid': 'control', 'first': True, 'last': False, 'offs': []})
+                    elif after == 'set_value-free':
+                        ocp.set_initial(bA.states[0], 0.25)
+                        cur['initial_list'] = list(cur.get('initial_list', [])) + [('x', 0, ('num', [0.25]))]
+                    bB = B.build(cur, transcribe=False)
+                    bB.ocp._transcribed
+                    B.finish(bB)
+                err = nlp_signature_compare(ocp, bB, self.rng, "after %s" % (hist,))
+            except (ZeroDivisionError, OverflowError):
+                continue
+            except Exception as ex:
+                err = "after %s: %s: %s" % (hist, type(ex).__name__, str(ex)[:300])
+            self.evaluations += 1
+            self.signatures.add("cleared-%d" % it)
+            self.count("cleared-then:" + after)
+            if err:
+                self.slice_ok["nothing-else-after-clear"] = False
+                self.violation(err, {"desc": desc, "history": hist}, {"kind": "cleared-constraints", "then": after})
+                return
 
     def unplaceable_slice(self):
         """a constraint on a grid the method cannot place must be rejected, not ignored"""
@@ -1042,7 +1086,7 @@ def var_index_of(b, expr):
 @register
 class C11(NlpCheck):
     pid = "C11"
-    slices = ["free-time-nlp", "horizon-symbols-in-signals-localized", "restriction-to-fixed-time", "start-value-is-guess"]
+    slices = ["free-time-nlp", "horizon-symbols-in-signals-localized", "restriction-to-fixed-time", "start-value-is-guess", "free-time-assigned-after-transcription"]
     tags = None
     whole = True
     want_f = True
@@ -1067,6 +1111,54 @@ class C11(NlpCheck):
     def correspondence(self):
         NlpCheck.correspondence(self)
         self.twin_slice()
+        self.late_free_slice()
+
+    def late_free_slice(self):
+        """assigning FreeTime through set_T / set_t0 AFTER the OCP was transcribed (a query or a solve) yields the free-time NLP of the same OCP
+        declared free from the start: the horizon variable exists, starts at the guess, T >= 0 is there"""
+        rockit = B.import_rockit()
+        n = 6 if self.tier == 'quick' else 60
+        prof = {'methods': ALLM, 'grids': ['uniform', 'geometric'], 'horizon': ['num'], 'obj_kinds': ['at_tf', 'integral'], 'ncons': (0, 1),
+                'features': {'time': 1.0}, 'horizon_in_signals': 1.0, 'Ns': [2, 3], 'Ms': [1, 2], 'degrees': [1, 2], 'nxs': [1, 2], 'nus': [1]}
+        for it in range(n):
+            desc = G.gen_case(self.rng, prof)
+            which = ['t0', 'T', 'both'][it % 3]
+            query = ['value', 'solve'][it % 2]
+            g0, gT = Fr(self.rng.randint(-3, 3), 2), Fr(self.rng.randint(1, 6), 2)
+            hist = [query] + (['set_t0(FreeTime)'] if which in ('t0', 'both') else []) + (['set_T(FreeTime)'] if which in ('T', 'both') else [])
+            try:
+                bA = B.build(desc, transcribe=False)
+                ocp = bA.ocp
+                cur = copy.deepcopy(desc)
+                with B.quiet():
+                    if query == 'value':
+                        ocp.value(ocp.T)
+                    else:
+                        try:
+                            ocp.solve()
+                        except RuntimeError:
+                            pass
+                    if which in ('t0', 'both'):
+                        ocp.set_t0(rockit.FreeTime(float(g0)))
+                        cur['t0'] = ('free', g0)
+                    if which in ('T', 'both'):
+                        ocp.set_T(rockit.FreeTime(float(gT)))
+                        cur['T'] = ('free', gT)
+                    bB = B.build(cur, transcribe=False)
+                    bB.ocp._transcribed
+                    B.finish(bB)
+                err = nlp_signature_compare(ocp, bB, self.rng, "after %s" % (hist,))
+            except (ZeroDivisionError, OverflowError):
+                continue
+            except Exception as ex:
+                err = "after %s: %s: %s" % (hist, type(ex).__name__, str(ex)[:300])
+            self.evaluations += 1
+            self.signatures.add("late-free-%d" % it)
+            self.count("late-free:" + which)
+            if err:
+                self.slice_ok["free-time-assigned-after-transcription"] = False
+                self.violation(err, {"desc": desc, "history": hist, "t0_guess": g0, "T_guess": gT}, {"kind": "late-free", "which": which})
+                return
 
     def twin_slice(self):
         import casadi as ca
@@ -1906,7 +1998,10 @@ class C08(SampleCheck):
             for t in times:
                 _, mv = parse_samples(self.driver.run("sampler %s %s" % (Mo.R(t), Mo.E.to_tokens(e))))
                 got = float(f(gist, float(t)))
-                want = float(mv[0])
+                try:
+                    want = float(mv[0])
+                except OverflowError:
+                    continue        # a value beyond the float range at an arbitrary point: nothing to compare
                 self.count("sampler-times")
                 if not (abs(got - want) <= 1e-7 * max(1.0, abs(want))):
                     self.slice_ok["sampler"] = False
@@ -2023,7 +2118,7 @@ def nlp_signature_compare(bA_ocp, bB, rng, what):
 @register
 class C13(Check):
     pid = "C13"
-    slices = ["operation-histories", "declared-lists-untouched", "stage-tree-histories", "dae-shooting-histories"]
+    slices = ["operation-histories", "declared-lists-untouched", "stage-tree-histories", "dae-shooting-histories", "solver-options-in-effect"]
     uses_generated = True
     OPS = ['set_value', 'set_initial', 'subject_to', 'clear_constraints', 'add_objective', 'method', 'solver', 'set_T', 'set_t0', 'sample', 'value', 'solve']
 
@@ -2043,6 +2138,60 @@ class C13(Check):
         from .props2 import tree_history_slice, dae_shooting_history_slice
         tree_history_slice(self, "stage-tree-histories")
         dae_shooting_history_slice(self, "dae-shooting-histories")
+        self.solver_options_slice()
+
+    def solver_options_slice(self):
+        """the solver options in effect are the ones declared LAST — also when the caller re-declares the solver with the SAME options
+        object, edited in place (the NLP does not change, so the options are observed through the solver: with max_iter=0 ipopt
+        takes no step)"""
+        n = 4 if self.tier == 'quick' else 30
+        done = 0
+        tries = 0
+        prof = {'methods': [('ms', 'rk'), ('dc', 'rk')], 'grids': ['uniform'], 'horizon': ['num'], 'obj_kinds': ['integral'], 'ncons': (0, 1),
+                'features': {'p': 0.0, 'qstate': 0.0}, 'Ns': [2, 3], 'Ms': [1], 'degrees': [2], 'nxs': [1, 2], 'nus': [1]}
+        while done < n and tries < 10 * n:
+            tries += 1
+            desc = G.gen_case(self.rng, prof)
+            same_object = done % 2 == 0
+            try:
+                b = B.build(desc, transcribe=False)
+                ocp = b.ocp
+                opts = {'ipopt.print_level': 0, 'print_time': False, 'ipopt.max_iter': 4, 'ipopt.sb': 'yes'}
+                with B.quiet():
+                    ocp.solver('ipopt', opts)
+                    try:
+                        ocp.solve()
+                    except RuntimeError:
+                        pass
+                    it1 = ocp._method.opti.stats().get('iter_count', 0)
+                    if same_object:
+                        opts['ipopt.max_iter'] = 0
+                        ocp.solver('ipopt', opts)
+                    else:
+                        ocp.solver('ipopt', dict(opts, **{'ipopt.max_iter': 0}))
+                    try:
+                        ocp.solve()
+                    except RuntimeError:
+                        pass
+                    it2 = ocp._method.opti.stats().get('iter_count', 0)
+            except (ZeroDivisionError, OverflowError):
+                continue
+            except Exception as ex:
+                self.slice_ok["solver-options-in-effect"] = False
+                self.violation("re-declaring the solver after a solve raised %s: %s" % (type(ex).__name__, str(ex)[:200]), {"desc": desc}, {"kind": "exception", "what": "solver-options"})
+                return
+            if it1 == 0:
+                continue          # converged at the starting point: the options cannot be told apart on this problem
+            done += 1
+            self.evaluations += 1
+            self.signatures.add("solver-options-%d" % done)
+            self.count("solver-options:" + ("same-object-edited-in-place" if same_object else "new-object"))
+            if it2 != 0:
+                self.slice_ok["solver-options-in-effect"] = False
+                self.violation("after solve; solver('ipopt', {max_iter: 0}) (%s); solve — ipopt took %d iterations: the options of the first declaration are still in effect"
+                               % ("the same options object edited in place" if same_object else "a new options object", it2), {"desc": desc, "same_object": same_object},
+                               {"kind": "solver-options", "same_object": same_object})
+                return
 
     def single_stage_histories(self):
         import casadi as ca
@@ -2283,7 +2432,9 @@ class C20(Check):
         elif fault == 'set_initial_unknown':
             ocp.set_initial(ca.MX.sym('foreign'), 1)
         elif fault == 'unknown_constraint_grid':
-            ocp.subject_to(x[0] <= 1, grid=rng.choice(['foo', 'Control', 'integrators', 'root']))
+            # on a path constraint or on a boundary / point constraint (which has no grid of its own: the name is still checked)
+            lhs = rng.choice([x[0], x[0], ocp.at_tf(x[0]), ocp.at_t0(x[0]), ocp.integral(x[0] ** 2)])
+            ocp.subject_to(lhs <= 1, grid=rng.choice(['foo', 'Control', 'integrators', 'root', 'contrl']))
         elif fault == 'unknown_sample_grid':
             ocp.sample(x, grid=rng.choice(['foo', 'Control', 'nodes']))
         elif fault == 'foreign_symbol':
